@@ -166,7 +166,11 @@ func genTargetID(r *rand.Rand, prop string, n int) int {
 		}
 		return r.IntN(n)
 	}
-	// C01, C02: explicit archive ids only (routing is C03's business)
+	// C01, C02: explicit archive ids (routing is C03's business); C02 also
+	// uses best-archive writes, judged when they route to a single archive
+	if prop == "C02" && chance(r, 0.2) {
+		return -1
+	}
 	if chance(r, 0.6) {
 		return 0
 	}
@@ -211,6 +215,12 @@ func genAge(r *rand.Rand, prop string, l Layout, id int, single bool) int64 {
 	// C01, C02: in range of the named archive; a share older than the named
 	// archive's retention through the single-update path (another lap of the
 	// ring) and a small share in the future through the batch path.
+	if id < 0 {
+		id = 0
+		if chance(r, 0.3) {
+			id = r.IntN(n)
+		}
+	}
 	a := l.Archs[id]
 	if single && chance(r, 0.15) {
 		return between(r, 0, l.MaxRet()-1)
@@ -801,13 +811,44 @@ func slotAt(a model.Arch, raw model.Raw, T int64) model.Slot {
 func (lr *libRun) c02Write(op LibOp, pts []model.Pt, now int64, pre, post []model.Raw, callErr error) {
 	e := lr.e
 	id := op.ID
-	if id < 0 {
-		return
-	}
 	for _, p := range pts {
 		if math.IsNaN(p.V) || math.IsInf(p.V, 0) {
 			return
 		}
+	}
+	if id < 0 {
+		// best-archive writes are judged when the routing model sends every
+		// point to one and the same archive (nothing dropped, nothing in the
+		// future): the call then is one write plus one propagation chain
+		if op.Op == "upd" {
+			if !model.SingleAccepted(lr.archs, pts[0].T, now) {
+				return
+			}
+			id = model.SingleTarget(lr.archs, pts[0].T, now)
+		} else {
+			shares, dropped := model.RouteBatch(lr.archs, pts, -1, now)
+			if len(dropped) > 0 {
+				return
+			}
+			id = -1
+			for a, sh := range shares {
+				if len(sh) > 0 {
+					if id >= 0 {
+						return
+					}
+					id = a
+				}
+			}
+			if id < 0 {
+				return
+			}
+			for _, p := range pts {
+				if p.T > now {
+					return
+				}
+			}
+		}
+		e.Probe("best-routed-write-judged")
 	}
 	a := lr.archs[id]
 	var writes []model.Slot
